@@ -2,6 +2,16 @@
 import genseq
 
 
+def rand_val(rng):
+    """the value domain of the concurrent engine (concrun and the small-step model's driver):
+    nil or a decimal int64. (genseq.rand_val also draws slice values, which only the
+    sequential harness parses.)"""
+    r = rng.random()
+    if r < 0.15:
+        return "nil"
+    return str(rng.randrange(-5, 100))
+
+
 def prefix(rng, ty, order, pool, allow_delete):
     n = rng.choice([0, 3, order, order + 1, 2 * order, 3 * order, 5 * order, 8 * order, 12 * order])
     n = min(n, 120)
@@ -14,7 +24,7 @@ def prefix(rng, ty, order, pool, allow_delete):
     if mode == "desc":
         load.reverse()
     for k in load:
-        lines.append("pre ins %s %s" % (k, genseq.rand_val(rng)))
+        lines.append("pre ins %s %s" % (k, rand_val(rng)))
         present.append(k)
     if allow_delete and present and rng.random() < 0.6:
         # thin the tree out so that nodes sit at minimum occupancy
@@ -291,4 +301,315 @@ def catalogue(types=None):
         small = ["pre ins %s %d" % (k[i], i) for i in (1, 2, 3, 4, 5)] + ["pre del %s" % k[5]]   # {1,2}{3,4}
         cases.append(["cbegin %s 4" % ty] + small + ["thread 0 del %s" % k[1], "thread 1 get %s ; ins %s 8" % (k[4], k[8]), "strategy dfs", "cend"])
         cases.append(["cbegin %s 4" % ty] + small + ["thread 0 del %s" % k[3], "thread 1 " + cur % k[0], "strategy dfs", "cend"])
+    return cases
+
+
+# ---------------------------------------------------------------------------
+# Wide nodes (orders 64 .. 512), a root with more than 64 children, a long cursor session
+
+WIDE_ORDERS = {"quick": (64, 128, 256), "thorough": (64, 128, 256, 512)}
+
+_CURSOR_SHARE = {"point": 0.15, "cursor": 0.85, "update": 0.2, "delete": 0.5, "mixed": 0.5}
+_POINT_W = {
+    "point": dict(ins=35, upd=15, dele=20, get=30),
+    "cursor": dict(ins=35, upd=10, dele=25, get=30),
+    "update": dict(ins=10, upd=65, dele=5, get=20),
+    "delete": dict(ins=25, upd=10, dele=40, get=25),
+    "mixed": dict(ins=30, upd=15, dele=25, get=30),
+}
+
+
+class _Layout:
+    """nl leaves of order/2 keys each under one root (ascending load of nl*h+1 keys, the last
+    one removed again). main[i] are the loaded keys; fill(i, r), r = 1..3, are three keys
+    strictly between main[i] and main[i+1] (they belong to the leaf of main[i]). r = 2 is used
+    by the prefix to raise a leaf's occupancy, r = 1 and r = 3 are never loaded: keys that are
+    absent whatever the prefix did."""
+
+    def __init__(self, ty, order, nl, rng):
+        self.ty, self.order, self.nl, self.h = ty, order, nl, order // 2
+        n = nl * self.h + 1
+        self.keys = genseq.asc_keys(ty, 4 * n + 12, rng)
+        self.main = self.keys[4::4][:n]
+        self.pre = ["pre ins %s %d" % (x, i % 50) for i, x in enumerate(self.main)] + ["pre del %s" % self.main[-1]]
+        # leaf x holds main[x*h .. x*h+h-1] and the fillers loaded into it, by (gap, r)
+        self.extra = [set() for _ in range(nl)]
+
+    def fill(self, i, r):
+        return self.keys[4 + 4 * i + r]
+
+    def raise_to(self, x, occ, rng):
+        """occupancy of leaf x: min | min1 | mid | full | thin (filled up, then thinned out to
+        minimum + 1 again, which leaves stale slots behind the slice's length)"""
+        h = self.h
+        gaps = {"min": [], "min1": [rng.randrange(h)], "mid": sorted(rng.sample(range(h), rng.randrange(2, h))),
+                "full": list(range(h)), "thin": list(range(h))}[occ]
+        for g in gaps:
+            self.pre.append("pre ins %s %d" % (self.fill(x * h + g, 2), g % 50))
+        if occ == "thin":
+            keep = rng.randrange(h)
+            order = list(range(h))
+            rng.shuffle(order)
+            for g in order:
+                if g != keep:
+                    self.pre.append("pre del %s" % self.fill(x * h + g, 2))
+            gaps = [keep]
+        self.extra[x] = set(gaps)
+
+    def leaf_keys(self, x):
+        out = []
+        for g in range(self.h):
+            out.append(self.main[x * self.h + g])
+            if g in self.extra[x]:
+                out.append(self.fill(x * self.h + g, 2))
+        return out
+
+    def absent_key(self, x, where, rng):
+        """a key that belongs to leaf x and is not stored: low (second slot), high (beyond the
+        leaf's last key) or anywhere"""
+        g = {"low": 0, "high": self.h - 1}.get(where)
+        if g is None:
+            g = rng.randrange(self.h)
+        return self.fill(x * self.h + g, 3 if where == "high" else rng.choice([1, 3]))
+
+
+def _point_ops(rng, lay, leaves, profile, nops, allow_delete=True):
+    """point operations on the edges of the given leaves: first / second / last key, an
+    absent key below everything but the first key or beyond the last key"""
+    w = dict(_POINT_W[profile])
+    if not allow_delete:
+        w["dele"] = 0
+    kinds = [k for k, v in w.items() for _ in range(v)]
+    ops = []
+    for _ in range(nops):
+        x = rng.choice(leaves)
+        lk = lay.leaf_keys(x)
+        present = rng.choice([lk[0], lk[1], lk[-1], lk[-1], lk[-2], rng.choice(lk)])
+        absent = lay.absent_key(x, rng.choice(["low", "low", "high", "any"]), rng)
+        kind = rng.choice(kinds)
+        if kind == "ins":
+            ops.append("ins %s %d" % (absent if rng.random() < 0.8 else present, rng.randrange(100)))
+        elif kind == "upd":
+            y = "y" if rng.random() < 0.25 else ""
+            ops.append("upd %s %sa1" % (absent if rng.random() < 0.5 else present, y))
+        elif kind == "dele":
+            ops.append("del %s" % (present if rng.random() < 0.85 else absent))
+        else:
+            ops.append("get %s" % (present if rng.random() < 0.85 else absent))
+    return ops
+
+
+def wide_case(rng, profile, orders, types=None):
+    """Leaf-level shapes at wide orders: a root over 3..5 leaves; the target leaf j and its
+    neighbours at minimum / minimum+1 / full / in-between occupancy; a Delete that under-flows
+    leaf j (each rebalance branch: borrow from the right, borrow from the left, merge into the
+    left, absorb the right), cursors that rest on a neighbouring leaf and hop into or out of
+    leaf j, and Searches / Inserts / Updates on the first and last keys of the same leaves.
+    Returns (lines without strategy, small) - small: two goroutines with one operation each,
+    fit for the exploration of every schedule."""
+    ty = rng.choice(types or genseq.TYPES)
+    o = rng.choice(orders)
+    nl = rng.choice([3, 3, 4, 5]) if o <= 256 else 3
+    lay = _Layout(ty, o, nl, rng)
+    h = lay.h
+    j = rng.choice([0] + list(range(1, nl)) * 3)
+    occ = {}
+    occ[j] = rng.choice(["min", "min", "min", "min1", "min1", "thin", "full"])
+    for x in (j - 1, j + 1):
+        if 0 <= x < nl:
+            occ[x] = rng.choice(["min", "min", "min", "min1", "min1", "mid", "full", "thin"])
+    for x in sorted(occ):
+        lay.raise_to(x, occ[x], rng)
+    near = sorted(occ)
+    lk = lay.leaf_keys(j)
+    threads = []
+    # the Delete that makes leaf j too small
+    if rng.random() < (0.5 if profile == "update" else 0.85):
+        dk = rng.choice([lk[0], lk[1], lk[len(lk) // 2], lk[-1], rng.choice(lk)])
+        ops = ["del %s" % dk]
+        if occ[j] in ("min1", "thin"):
+            ops.append("del %s" % rng.choice([k for k in lk if k != dk]))
+        elif rng.random() < 0.3:
+            ops += _point_ops(rng, lay, near, profile, 1)
+        threads.append(ops)
+    else:
+        threads.append(_point_ops(rng, lay, near, profile, rng.choice([1, 2])))
+    nthreads = rng.choice([2, 2, 3])
+    long_cursor = False
+    while len(threads) < nthreads:
+        if rng.random() < (_CURSOR_SHARE[profile] if len(threads) == 1 else 0.25):
+            x = rng.choice([v for v in (j - 1, j) if v >= 0])
+            xk = lay.leaf_keys(x)
+            variant = rng.choice(["edge", "edge", "edge", "hop", "all"])
+            if variant == "edge":
+                back = rng.choice([1, 2, 3])
+                start, steps = xk[-back], back + rng.choice([1, 2, 3])
+            elif variant == "hop":
+                start, steps = xk[rng.choice([0, 1])], len(xk) + rng.choice([1, 3])
+                long_cursor = True
+            else:
+                start, steps = rng.choice(FULL_SCAN_KEYS[ty]), rng.choice([2, 3, nl * o])
+                long_cursor = long_cursor or steps > 3
+            ops = ["ns %s" % start]
+            for i in range(steps):
+                ops += ["scan", "pair"]
+                if steps <= 8 and rng.random() < 0.25:
+                    ops.append("pause")
+            ops.append("close")
+            threads.append(ops)
+        else:
+            threads.append(_point_ops(rng, lay, near, profile, rng.choice([1, 1, 2])))
+    lines = ["cbegin %s %d" % (ty, o)] + lay.pre
+    nclient = 0
+    for t, ops in enumerate(threads):
+        lines.append("thread %d %s" % (t, " ; ".join(ops)))
+        nclient += 1 if ops[0].startswith("ns ") else len(ops)
+    small = nthreads == 2 and nclient <= 3 and not long_cursor
+    return lines, small
+
+
+def huge_case(rng, ty, variant, order=128, nkeys=None):
+    """A root with more than 64 children: `nkeys` ascending keys at order 128 (4500..8100: a
+    two-level tree whose root has 70..126 leaves of 64 keys; 9000: three levels, the right
+    internal node has more than 64 children). A Search heads for leaf c while an Insert
+    splits that leaf (the searched key moves to the new sibling), a Delete merges it into its
+    left neighbour, or a Delete makes a neighbour borrow the searched key. variant: split |
+    merge | borrow (two goroutines, one operation each) | rand (three goroutines)."""
+    h = order // 2
+    n = nkeys or rng.randrange(4500, 5400)
+    keys = genseq.asc_keys(ty, 4 * n + 12, rng)
+    main = keys[4::4][:n]
+    fill = lambda i, r: keys[4 + 4 * i + r]
+    pre = ["pre ins %s %d" % (x, i % 50) for i, x in enumerate(main)]
+    nleaves = n // h                      # the last leaf holds the remainder
+    c = rng.randrange(2, nleaves - 3)
+    if n >= 8200:
+        c = rng.randrange(nleaves - 70, nleaves - 3)   # under the wide right-hand internal node
+    first = c * h
+    if variant == "split":
+        pre += ["pre ins %s 1" % fill(first + g, 2) for g in range(h)]      # leaf c is full
+        th = ["get %s" % rng.choice([main[first + h - 1], main[first + h - 2], main[first + h // 2 + 1]]),
+              rng.choice(["ins %s 7", "upd %s a1"]) % fill(first + rng.randrange(h), 1)]
+    elif variant == "merge":
+        th = ["get %s" % main[first + rng.choice([0, 2, h - 1])], "del %s" % main[first + 1]]
+    elif variant == "borrow":
+        pre += ["pre ins %s 1" % fill(first + h + 3, 2)]                    # leaf c+1 has one to spare
+        th = ["get %s" % main[first + h], "del %s" % main[first + rng.randrange(h)]]
+    else:
+        pre += ["pre ins %s 1" % fill(first + g, 2) for g in range(h)]
+        pool = [main[first + h - 1], main[first + h - 2], main[first - 1], main[first + h], main[first + h + 1], main[first]]
+        th = ["get %s ; get %s" % (rng.choice(pool), rng.choice(pool)),
+              "ins %s 7 ; del %s" % (fill(first + rng.randrange(h), 1), main[first + h + 2]),
+              "del %s ; upd %s a1" % (main[first - 2], fill(first + h + 1, 3))]
+    lines = ["cbegin %s %d" % (ty, order)] + pre + ["thread %d %s" % (t, ops) for t, ops in enumerate(th)]
+    return lines
+
+
+def long_cursor_case(rng, ty, order=16, nkeys=10000, steps=8320, region=(8080, 8310)):
+    """One cursor that performs `steps` scan/pair steps over a tree of `nkeys` keys (loaded
+    ascending: leaves of order/2 keys), and two writers that work, leaf after leaf, through
+    the leaves the cursor traverses in steps region[0]..region[1], taking the leaves in turns:
+    an Insert into the lower half of the leaf (mostly), an Update of an absent or a present
+    key, a Delete, a Search. Run with concrun's `strategy lead 0 <lead> .. pace
+    1:<base>:<stride>,2:<base'>:<stride>`: the cursor travels alone up to the region; from there
+    a writer may begin its i-th operation only once the cursor is about to enter the leaf that
+    operation aims at (the cursor has started base + i*stride operations).
+    Returns (lines without strategy, lead_ops, pace string, cursor steps)."""
+    h = order // 2
+    keys = genseq.asc_keys(ty, 4 * nkeys + 12, rng)
+    main = keys[4::4][:nkeys]
+    fill = lambda i, r: keys[4 + 4 * i + r]
+    pre = ["pre ins %s %d" % (x, i % 50) for i, x in enumerate(main)]
+    s0 = rng.randrange(h)
+    cur = ["ns %s" % main[s0]] + ["scan", "pair"] * steps + ["close"]
+    # scan number n exposes main[s0 + n - 1]; the scan that enters leaf x is number x*h - s0 + 1,
+    # the cursor's operation of index 2*(x*h - s0 + 1) - 1
+    l0, l1 = (s0 + region[0]) // h, (s0 + region[1]) // h
+    w = [[], []]
+    for x in range(l0, l1 + 1):
+        g = rng.randrange(0, max(1, h // 2))
+        r = rng.random()
+        if r < 0.5:
+            op = "ins %s %d" % (fill(x * h + g, 1), x % 90)
+        elif r < 0.6:
+            op = "upd %s a1" % fill(x * h + g, 3)
+        elif r < 0.7:
+            op = "upd %s a1" % main[x * h + rng.randrange(h)]
+        elif r < 0.75:
+            op = "ins %s %d" % (main[x * h + g], x % 90)
+        elif r < 0.9:
+            op = "del %s" % main[x * h + g]
+        else:
+            op = "get %s" % main[x * h + rng.choice([0, h - 1])]
+        # the writers take the leaves in turns: while one of them is still queued on the leaf
+        # the cursor rests on, the other can already head for the next one
+        w[(x - l0) % 2].append(op)
+    w1, w2 = w
+    base = 2 * (l0 * h - s0 + 1)
+    pace = "1:%d:%d,2:%d:%d" % (base, 4 * h, base + 2 * h, 4 * h)
+    lines = ["cbegin %s %d" % (ty, order)] + pre + ["thread 0 " + " ; ".join(cur), "thread 1 " + " ; ".join(w1), "thread 2 " + " ; ".join(w2)]
+    return lines, base - 4 * h, pace, steps
+
+
+def wide_catalogue(types=None, orders=(128,), full=True, select=None):
+    """The configurations of `catalogue` at the leaf level of a wide tree (root over four
+    leaves of order/2 .. order keys), two goroutines with one operation (or one short cursor
+    session) each, explored under EVERY schedule: a Search / Update of the first or last key
+    of a leaf while an Insert shifts or splits that leaf or a Delete makes a neighbour borrow
+    that key or merges the leaf away; a cursor resting on the left, on the leaf itself or on
+    the right while a Delete under-flows the leaf (borrow right / borrow left / merge into the
+    left / absorb the right; first, inner and last child). `full`: every configuration for
+    all the key types; otherwise one type per configuration, rotating. `select`: predicate on
+    the configuration's name (the `# name` line of the case)."""
+    import random
+    cases = []
+    tys = types or genseq.TYPES
+    ci = 0
+    for o in orders:
+        h = o // 2
+
+        def cur(lay, x, back, steps):
+            xk = lay.leaf_keys(x)
+            return "ns %s ; %s ; close" % (xk[-back], " ; ".join(["scan ; pair"] * steps))
+        first = lambda lay, x: lay.leaf_keys(x)[0]
+        last = lambda lay, x: lay.leaf_keys(x)[-1]
+        mid = lambda lay, x, h=h: lay.leaf_keys(x)[h // 2]
+        low = lambda lay, x, h=h: lay.fill(x * h, 1)
+        high = lambda lay, x, h=h: lay.fill(x * h + h - 1, 3)
+        # (name, occupancies {leaf: occ}, the two programs as a function of the layout)
+        configs = [
+            ("get-last/ins-low", {1: "min1"}, lambda L: ["get %s" % last(L, 1), "ins %s 7" % low(L, 1)]),
+            ("get-last/ins-low thinned", {1: "thin"}, lambda L: ["get %s" % last(L, 1), "ins %s 7" % low(L, 1)]),
+            ("get-last/upd-low", {1: "mid"}, lambda L: ["get %s" % last(L, 1), "upd %s a1" % low(L, 1)]),
+            ("get-last/ins-splits", {1: "full"}, lambda L: ["get %s" % last(L, 1), "ins %s 7" % low(L, 1)]),
+            ("get-first/ins-high", {1: "min1"}, lambda L: ["get %s" % first(L, 1), "ins %s 7" % high(L, 1)]),
+            ("get-mid/del-merges-left", {}, lambda L: ["get %s" % mid(L, 1), "del %s" % first(L, 1)]),
+            ("get-last/del-low", {1: "min1"}, lambda L: ["get %s" % last(L, 1), "del %s" % first(L, 1)]),
+            ("get-first-of-right/del-borrows-right", {2: "min1"}, lambda L: ["get %s" % first(L, 2), "del %s" % mid(L, 1)]),
+            ("get-last-of-left/del-borrows-left", {0: "min1"}, lambda L: ["get %s" % last(L, 0), "del %s" % mid(L, 1)]),
+            ("get-first-of-right/first-child-absorbs-right", {}, lambda L: ["get %s" % first(L, 1), "del %s" % mid(L, 0)]),
+            ("get-last-of-left/last-child-merges-left", {}, lambda L: ["get %s" % last(L, 2), "del %s" % mid(L, 3)]),
+            ("upd-last-yield/ins-low", {1: "min1"}, lambda L: ["upd %s ya1" % last(L, 1), "ins %s 7" % low(L, 1)]),
+            ("upd-absent-yield/get-last", {1: "min1"}, lambda L: ["upd %s ya1" % low(L, 1), "get %s" % last(L, 1)]),
+            ("del/del-neighbours", {}, lambda L: ["del %s" % mid(L, 1), "del %s" % mid(L, 2)]),
+            ("cursor-left/del-merges-left", {}, lambda L: [cur(L, 0, 2, 4), "del %s" % mid(L, 1)]),
+            ("cursor-left/del-borrows-left", {0: "min1"}, lambda L: [cur(L, 0, 2, 4), "del %s" % first(L, 1)]),
+            ("cursor-left/del-borrows-right", {2: "mid"}, lambda L: [cur(L, 0, 2, 4), "del %s" % last(L, 1)]),
+            ("cursor-child/del-merges-left", {}, lambda L: [cur(L, 1, 2, 4), "del %s" % mid(L, 1)]),
+            ("cursor-right/del-borrows-right", {2: "min1"}, lambda L, h=h: [cur(L, 2, h, 3), "del %s" % mid(L, 1)]),
+            ("cursor-left/last-child-merges-left", {}, lambda L: [cur(L, 2, 2, 4), "del %s" % first(L, 3)]),
+            ("cursor-left/ins-low", {1: "min1"}, lambda L: [cur(L, 0, 2, 5), "ins %s 7" % low(L, 1)]),
+            ("cursor-child/ins-splits", {1: "full"}, lambda L: [cur(L, 1, 3, 5), "ins %s 7" % low(L, 1)]),
+        ]
+        for name, occ, prog in configs:
+            if select is not None and not select(name):
+                ci += 1
+                continue
+            for ty in (tys if full else [tys[ci % len(tys)]]):
+                lay = _Layout(ty, o, 4, random.Random(7))
+                for x in sorted(occ):
+                    lay.raise_to(x, occ[x], random.Random(11 + x))
+                th = prog(lay)
+                cases.append(["cbegin %s %d" % (ty, o), "# " + name] + lay.pre + ["thread %d %s" % (t, p) for t, p in enumerate(th)] + ["strategy dfs", "cend"])
+            ci += 1
     return cases
